@@ -1,6 +1,8 @@
+#include <ctype.h>
 #include <stdbool.h>
 #include <stdio.h>
 #include <stdlib.h>
+#include <string.h>
 #include "util.h"
 #include "arg.h"
 #include "cc.h"
@@ -12,10 +14,53 @@ usage(void)
 	exit(2);
 }
 
+/*
+ * whether the spelling b of a token, written directly after a token of kind pk
+ * whose spelling ends in a (ident: identifier or keyword), would be scanned
+ * differently than the two tokens (-E output)
+ */
+static bool
+pastes(enum tokenkind pk, bool ident, const char *a, const char *b)
+{
+	static const char *const join[] = {
+		"->", "++", "--", "<<", ">>", "<=", ">=", "==", "!=", "&&", "||", "::",
+		"*=", "/=", "%=", "+=", "-=", "<<=", ">>=", "&=", "^=", "|=", "##",
+		"//", "/*", "<:", "<%", "%>", ":>", "%:",
+	};
+	unsigned char c = *b;
+	char buf[8];
+	size_t i, n = strlen(a);
+
+	if (n == 0 || c == '\0' || pk == TSTRINGLIT || pk == TCHARCONST)
+		return false;
+	if (pk == TNUMBER)
+		return isalnum(c) || c == '_' || c == '.' || ((c == '+' || c == '-') && strchr("eEpP", a[n - 1]));
+	if (ident) {
+		if (c == '"' || c == '\'')
+			return !strcmp(a, "L") || !strcmp(a, "u") || !strcmp(a, "U") || !strcmp(a, "u8");
+		return isalnum(c) || c == '_';
+	}
+	if (n == 1 && *a == '.' && (c == '.' || isdigit(c)))
+		return true;
+	if (n + 2 > sizeof(buf))
+		return false;
+	memcpy(buf, a, n);
+	buf[n] = c;
+	buf[n + 1] = '\0';
+	for (i = 0; i < LEN(join); ++i) {
+		if (strcmp(buf, join[i]) == 0)
+			return true;
+	}
+	return false;
+}
+
 int
 main(int argc, char *argv[])
 {
 	bool pponly = false;
+	enum tokenkind prevkind = TNEWLINE;
+	bool prevident = false;
+	char prev[8] = "";
 	char *output = NULL, *target = NULL;
 
 	argv0 = progname(argv[0], "cproc-qbe");
@@ -66,6 +111,18 @@ main(int argc, char *argv[])
 		}
 #endif
 		while (tok.kind != TEOF) {
+			const char *s = tok.lit ? tok.lit : tokstr[tok.kind];
+
+			/* macro replacement can make tokens adjacent that would lex differently when pasted */
+			if (tok.kind == TNEWLINE || !s) {
+				prev[0] = '\0';
+			} else {
+				if (!tok.space && pastes(prevkind, prevident, prev, s))
+					tok.space = true;
+				snprintf(prev, sizeof(prev), "%s", strlen(s) < sizeof(prev) ? s : s + strlen(s) - (sizeof(prev) - 1));
+				prevkind = tok.kind;
+				prevident = tok.kind != TSTRINGLIT && tok.kind != TCHARCONST && (isalpha((unsigned char)*s) || *s == '_');
+			}
 			tokenprint(&tok);
 			next();
 		}
